@@ -14,6 +14,13 @@ pub fn verif_root() -> PathBuf {
     PathBuf::from(std::env::var("VERIF_ROOT").unwrap_or_else(|_| "/verif".into()))
 }
 
+/// where evidence/ and replays/ are written (default: the verif root); tools/run_seeded.sh
+/// points this at a scratch directory so that runs against a seeded change leave the
+/// committed evidence alone
+pub fn out_root() -> PathBuf {
+    std::env::var("VERIF_OUT_DIR").map(PathBuf::from).unwrap_or_else(|_| verif_root())
+}
+
 pub fn seed_from_env() -> u64 {
     std::env::var("VERIF_SEED").ok().and_then(|s| s.parse::<u64>().ok()).unwrap_or(1)
 }
@@ -519,8 +526,8 @@ pub fn run_check(engine: &dyn Engine, thorough: bool) -> i32 {
         }
         new_violations += fs.len() as u64;
         nrep += 1;
-        let path = root.join("replays").join(format!("{}-{}-{}.json", prop, seed, nrep));
-        let _ = std::fs::create_dir_all(root.join("replays"));
+        let path = out_root().join("replays").join(format!("{}-{}-{}.json", prop, seed, nrep));
+        let _ = std::fs::create_dir_all(out_root().join("replays"));
         let rep = json!({
             "property": prop,
             "engine": engine.engine_name(),
@@ -591,7 +598,7 @@ pub fn run_check(engine: &dyn Engine, thorough: bool) -> i32 {
         },
         "assumptions": engine.assumptions(),
     });
-    let evdir = root.join("evidence");
+    let evdir = out_root().join("evidence");
     let _ = std::fs::create_dir_all(&evdir);
     let _ = std::fs::write(evdir.join(format!("{}.json", prop)), serde_json::to_string_pretty(&ev).unwrap());
     let _ = std::fs::remove_dir_all(&outdir);
